@@ -25,7 +25,7 @@ from ..runner import Harness, register
 
 SP = styles.StyleProperties
 R1 = [["r1", ""]]
-RG = [["r1", "og=10,10 xt=80,20 da=before"], ["r2", "og=10,70 xt=80,20 da=after"]]
+RG = [["r1", "og=10,10 xt=80,20 da=before"], ["r2", "og=10,70 xt=80,20 da=after"], ["r3", "og=20,30 xt=60,24 da=center"]]
 
 # (name, regions, body)
 DOCS = [
@@ -43,7 +43,9 @@ DOCS = [
    ["body", "", [["div", "", [["p", "r=r1 b e", [S("A", "")]], ["p", "r=r2", [S("B", "")]], ["p", "r=r1", [S("C", "")]]]]]]),
   ("two-divs-in-merged-region", [["r1", ""], ["r2", ""]],
    ["body", "", [["div", "r=r1", [["p", "b e", [S("A", "")]]]], ["div", "r=r1", [["p", "", [S("B", "")]]]], ["div", "r=r2", [["p", "", [S("C", "")]]]]]]),
-  ("align-and-line", RG, ["body", "", [["div", "r=r1", [["p", "b e ta=center", [S("A", "")]]]], ["div", "r=r2", [["p", "b e ta=end dir=rtl", [S("B", "")]]]]]]),
+  ("align-and-line", RG, ["body", "", [["div", "r=r1", [["p", "b e ta=center", [S("A", "")]]]], ["div", "r=r2", [["p", "e ta=end dir=rtl", [S("B", "")]]]],
+                                      ["div", "r=r3", [["p", "ta=start", [S("C", "")]]]]]]),
+  ("styles-2", R1, ["body", "", [["div", "r=r1", [["p", "b e", [S("A", "c=red"), S("B", "bg=red"), S("C", "fs=italic td=underline"), S("D", "fw=bold fs=italic td=underline c=blue bg=blue")]]]]]]),
 ]
 
 CONFIGS = [
